@@ -150,17 +150,17 @@ def run_check(mod, ctx):
             stats.update(res["stats"])
             for d in res["model_impl"][:3]:
                 pass
-            if res["impl_spec"]:
-                for d in res["impl_spec"]:
-                    violations.append(("implementation disagrees with the specification", d))
-            if res["model_impl"] and not res["impl_spec"]:
-                # model proven equal to spec on the property's domain => this input is a failing input
-                for d in res["model_impl"]:
-                    if getattr(mod, "MODEL_IS_SPEC", False) and d.get("in_domain", True) and not broken:
-                        violations.append(("implementation disagrees with the proved model", d))
-                if not violations:
+            for d in res["impl_spec"]:
+                violations.append(("implementation disagrees with the specification", d))
+            if res["model_impl"]:
+                # where model = spec is a theorem, a model/implementation disagreement inside the domain IS a failing input
+                proved = getattr(mod, "MODEL_IS_SPEC", False) and not broken
+                hits = [d for d in res["model_impl"] if proved and d.get("in_domain", True)]
+                for d in hits:
+                    violations.append(("implementation disagrees with the proved model", d))
+                if not hits:
                     broken.append("correspondence %s: model and implementation differ on %d case(s), first: %s" % (
-                        pid, len(res["model_impl"]), json.dumps(res["model_impl"][0].get("desc"))[:300]))
+                        pid, len(res["model_impl"]), json.dumps(res["model_impl"][0].get("desc"), default=str)[:300]))
             if hasattr(mod, "extra"):
                 pass
     cov.update({"evaluations": stats["evaluations"], "distinct_nontrivial": stats["distinct_nontrivial"],
